@@ -15,9 +15,10 @@
 //! `stripe run` reads input lines on stdin and prints them followed by
 //!     ` => <obs>;<obs>;...`
 //! one observation per op: `P` when the op panicked (ends the case), otherwise
-//!     len|wrap|rows|<row>/<row>/...|<index results>|<count_symbols>|<count_symbol per symbol>|<bm>
+//!     len|wrap|rows|<row>/<row>/...|<index results>|<count_symbols>|<count_symbol per symbol>|<bm>|<all>
 //! rows one char per cell (`-` when there are no rows), index results one char
 //! per sampled index of `idx` (`P` = Index panicked), counts comma separated,
+//! all = Index at every position 0..len() (one char each, `P` = panicked, `-` when len() = 0),
 //! bm = `n` (not a stripe op or C != 32), `=` (generic and AVX2 stripe_into of
 //! this sequence into clones of the buffer gave identical len/wrap/matrix) or
 //! `!<detail>`.
@@ -207,8 +208,14 @@ fn observe<A: Alphabet, C: PositiveLength>(st: &StripedSequence<A, C>, idx: &[us
         Some(c) => c.iter().map(|x| x.to_string()).collect::<Vec<_>>().join(","),
         None => "P".to_string(),
     };
+    let all: String = (0..st.len())
+        .map(|i| match no_panic(|| st[i].as_index()) {
+            Some(v) => (b'a' + v as u8) as char,
+            None => 'P',
+        })
+        .collect();
     format!(
-        "{}|{}|{}|{}|{}|{}|{}|{}",
+        "{}|{}|{}|{}|{}|{}|{}|{}|{}",
         st.len(),
         st.wrap(),
         st.matrix().rows(),
@@ -216,7 +223,8 @@ fn observe<A: Alphabet, C: PositiveLength>(st: &StripedSequence<A, C>, idx: &[us
         if ix.is_empty() { "-".to_string() } else { ix },
         counts,
         count1,
-        bm
+        bm,
+        if all.is_empty() { "-".to_string() } else { all }
     )
 }
 
